@@ -109,6 +109,11 @@ for i, g in enumerate(groups):
     for kind in ("sync", "async"):
         add(kind=kind, family="group", policy=rnd.choice(POL), limit=rnd.choice([None, 2, 3]),
             name=(f"grp_{kind}_{i}" if i % 3 == 0 else None), **g)
+# a chain: `dep_mid` depends on the label "d0"; `dep_leaf` depends on the label "dep_mid", which is also the
+# NAME of the first cache: invalidating dependency "d0" must not cascade to the leaf
+for kind in ("sync", "async"):
+    add(kind=kind, family="group", name=f"dep_mid_{kind}", deps=["d0"], limit=2, policy="lru")
+    add(kind=kind, family="group", name=f"dep_leaf_{kind}", deps=[f"dep_mid_{kind}"])
 # a thread-scope function with tags (must never be touched by group invalidation)
 add(kind="sync", scope="thread", tags=["t0", "x"], events=["e0"], family="group")
 
